@@ -412,7 +412,7 @@ class LockStep:
                 return ('roundtrip-hyperparameter', f'{k} after rolling back = {getattr(self.pre, k)!r}, value when the state was taken {v!r}')
         return None
 
-    def checkpoint_roundtrip(self, compute_inverses=True, include_factors=True):
+    def checkpoint_roundtrip(self, compute_inverses=True, include_factors=True, perturb=False):
         """state -> pickle -> fresh model copy + fresh preconditioner -> load.  Returns None or (key, msg)."""
         if not compute_inverses and (not self.ref.is_refresh_step() or (self.sched_json and 'inv_update_steps' in self.sched_json)):
             # documented requirement: without inverses the first step after loading must be an inverse-update step
@@ -429,6 +429,14 @@ class LockStep:
         new_model = kmodel.build_model(self.case['spec'], self.pd)
         kmodel.copy_params(self.model, new_model)
         kw = dict(self.kw)
+        if perturb:
+            # the fresh preconditioner is constructed with OTHER constants: the saved ones (also falsy ones such as lr = 0.0 or
+            # kl_clip = None) must replace them
+            other = {'factor_update_steps': lambda v: v + 1, 'inv_update_steps': lambda v: v + 2, 'damping': lambda v: v * 3 + 0.5,
+                     'factor_decay': lambda v: 0.77 if v != 0.77 else 0.6, 'kl_clip': lambda v: 0.123 if v is None else v * 7, 'lr': lambda v: v * 0.5 + 0.3}
+            for key, f in other.items():
+                if key in kw and not callable(kw[key]):
+                    kw[key] = f(kw[key])
         try:
             with warnings.catch_warnings():
                 warnings.simplefilter('ignore')
